@@ -221,16 +221,17 @@ func (r *Resource) as(target any) error {
 		return nil
 	}
 	extras := rem.Remain()
-	for attrName := range existingAttrs {
-		attr, ok := r.Attr(attrName)
-		if !ok {
-			return fmt.Errorf("schemahcl: expected attr %q to exist", attrName)
+	// Keep the remaining attributes and blocks in the order they appear in the resource.
+	for _, attr := range r.Attrs {
+		if _, ok := existingAttrs[attr.K]; ok {
+			extras.SetAttr(attr)
+			delete(existingAttrs, attr.K)
 		}
-		extras.SetAttr(attr)
 	}
-	for childType := range existingChildren {
-		children := childrenOfType(r, childType)
-		extras.Children = append(extras.Children, children...)
+	for _, c := range r.Children {
+		if _, ok := existingChildren[c.Type]; ok {
+			extras.Children = append(extras.Children, c)
+		}
 	}
 	// In case the resource contains a remain (DefaultExtension) and
 	// the range was not explicitly set, attach to it the position.
